@@ -296,7 +296,27 @@ def nice_model(ex, got, want, names, timeout_ms=2000):
         return None
     best = s.model()
     t0 = time.time()
+    # prefer a counterexample whose two sides are visibly apart (a model with |lhs - rhs| ~ 1e-15 is lost in the float replay)
+    d = ex.low(got) - ex.low(want)
+    for sep in ("1/16", "1/1024", "1/1048576"):
+        c = z3.Or(d >= z3.RealVal(sep), d <= -z3.RealVal(sep))
+        s.push()
+        s.add(c)
+        if str(s.check()) == "sat":
+            best = s.model()
+            s.pop()
+            s.add(c)
+            break
+        s.pop()
+    # only the inputs the two sides depend on are pushed into a moderate range, within a 6 s budget
+    try:
+        used = dag.variables(got) | dag.variables(want)
+        names = [nm for nm in names if nm in used] or names
+    except Exception:  # noqa
+        pass
     for nm in names:
+        if time.time() - t0 > 6:
+            break
         v = z3.Real(nm)
         for k in (2, 8, 20, 45):
             lo, hi = z3.RealVal("1/%d" % (2 ** k)), z3.RealVal(str(2 ** k))
@@ -320,6 +340,7 @@ def run_symbolic(h, mods, cfg, timeout_ms=20000, max_paths=64, label=""):
     t_solver = 0.0
     npaths = 0
     nfeas = 0
+    nsat_nice = [0]
 
     ctx = getattr(mods, "_ctx", None)
 
@@ -429,7 +450,8 @@ def run_symbolic(h, mods, cfg, timeout_ms=20000, max_paths=64, label=""):
             rec = Record(kind=ob.kind, name=label + "/" + ob.name, path=pid, verdict=v, t=round(dt, 4),
                          size=dag.size(got) + dag.size(want), trivial=trivial, phase=phase, tags=list(env.tags))
             if v == "sat":
-                m2 = nice_model(ex, got, want, names)
+                nsat_nice[0] += 1
+                m2 = nice_model(ex, got, want, names) if nsat_nice[0] <= 12 else None   # replays are capped per task anyway
                 mv = model_values(m2 if m2 is not None else m, names + ["EPS"])
                 rec["model"] = {k: str(val) for k, val in mv.items()}
                 rec["model_float"] = {k: float(val) for k, val in mv.items()}
